@@ -114,6 +114,11 @@ func c16Shapes() []*c16Case {
 		cs.Rules = []gram.Rule{{L: "S", R: []string{"S", "TA"}, Action: act}, {L: "S", R: []string{"TA"}, Action: " $$ = $1 "}}
 		add(fmt.Sprintf("comment-in-action-%d", ai), cs)
 	}
+	for pi, more := range [][]string{{"var extraA int"}, {"var extraA int", "var extraB = extraA"}, {"var extraA int\nvar extraB int", "var extraC int"}} {
+		ps := gram.Parse("S", []string{"TA"}, "S: S TA | TA")
+		ps.MorePrologue = more
+		add(fmt.Sprintf("several-prologue-blocks-%d", pi), ps)
+	}
 	long := &gram.Spec{Start: "S", HasUnion: true, Union: " v int ", Tokens: []gram.TokDecl{{Name: "TA", Tag: "v"}}, Types: []gram.TypeDecl{{Tag: "v", Names: []string{"S"}}}}
 	lr := gram.Rule{L: "S", Action: " $$ = $1 + $9 + $10 + $11 + $12 "}
 	for k := 0; k < 12; k++ {
@@ -177,6 +182,14 @@ func c16Source(s *gram.Spec, variant, pkg string) string {
 		if c.HasUnion {
 			// the union body is target-language text: translate the two field shapes used by the shape list
 			c.Union = strings.NewReplacer(" v int ", " v :number; ", " w string ", " w :string; ").Replace(c.Union)
+		}
+		if len(c.MorePrologue) > 0 {
+			// the blocks are target-language text
+			var mp []string
+			for _, p := range c.MorePrologue {
+				mp = append(mp, strings.ReplaceAll(p, " int", " = 0;"))
+			}
+			c.MorePrologue = mp
 		}
 		c.Epilogue = "\nfunction GetToken(input :string, model:{ValType :ValType, pos :number}) :number {\n\treturn -1\n}\n"
 		for i := range c.Rules {
